@@ -279,6 +279,8 @@ def extract_tr(docs_tel, docs_save, notes):
                         and then[0][1][3][0] == "construct" and len(then[0][1][3]) == 2 \
                         and then[1][0] == "expr" and then[1][1][:3] == ("mcall", "reserve", BACK) and then[1][1][3][0] == "int":
                     g["tr_reserve"] = int(then[1][1][3][1])
+                else:
+                    notes.append("getCurrentEventList: new-chunk branch is not {events.push_back(vector()); events.back().reserve(N);}: %r" % (then[:2],))
                 g["tr_returns_back"] = b[1] == ("ret", BACK)
             else:
                 notes.append("getCurrentEventList: not `if (...) {push_back; reserve} return events.back()`")
